@@ -298,6 +298,10 @@ def run(ctx):
     if not (okf and ncalls == 1):
         res.add(Finding('C13', 'C13.f', 'R-ORDER', recyc.file, recyc.qualname, recyc.node.lineno, 'worker creation guard',
                         'a replacement worker can be created while another handle is still held'))
+    # ---- C13.g the execution configuration reaches the equalizer as given (a rate / timeout of 0 is a legal value)
+    from . import common
+    cg = res.clause('C13.g', 'R-PROV', 'recycle rate, timeout and process mode are stored as the caller gave them', floor=3)
+    common.ctor_params_clause(ctx, res, cg, 'C13', 'C13.g', 'CompareExecutionConfig')
     return res
 
 
